@@ -2,6 +2,7 @@ package basm
 
 import (
 	"fmt"
+	"sort"
 
 	"github.com/BondMachineHQ/BondMachine/pkg/bmconfig"
 	"github.com/BondMachineHQ/BondMachine/pkg/bmline"
@@ -10,8 +11,15 @@ import (
 
 func dynamicalInstructions(bi *BasmInstance) error {
 
-	// Loop over the sections
-	for sectName, section := range bi.sections {
+	// Loop over the sections, in name order: the instructions created here are appended to the global
+	// opcode list and to the matchers, whose order decides between equally sized code alternatives
+	sectNames := make([]string, 0, len(bi.sections))
+	for sectName := range bi.sections {
+		sectNames = append(sectNames, sectName)
+	}
+	sort.Strings(sectNames)
+	for _, sectName := range sectNames {
+		section := bi.sections[sectName]
 		if section.sectionType == sectRomText || section.sectionType == sectRamText {
 			if bi.debug {
 				fmt.Println(green("\t\tSection: ") + sectName)
@@ -76,8 +84,14 @@ func dynamicalInstructions(bi *BasmInstance) error {
 		}
 	}
 
-	// Loop over the fragments
-	for fragName, fragment := range bi.fragments {
+	// Loop over the fragments, in name order
+	fragNames := make([]string, 0, len(bi.fragments))
+	for fragName := range bi.fragments {
+		fragNames = append(fragNames, fragName)
+	}
+	sort.Strings(fragNames)
+	for _, fragName := range fragNames {
+		fragment := bi.fragments[fragName]
 		if bi.debug {
 			fmt.Println(green("\t\tFragment: ") + fragName)
 		}
